@@ -371,7 +371,12 @@ template<typename T> void run_task(Run &run, Cn &cn, const Task &t, bool thoroug
         }
     } else if (t.kind == 6) {
         // density family (about 1200 segments, several levels) for run-time epsilon 1, 2, 3, 64
-        for (long w = t.first_op; w < 256; w += 16) for (size_t e : {size_t(1), size_t(2), size_t(3), size_t(64)}) {
+        bool light = false;
+#ifdef VERIF_ASAN
+        light = !thorough;
+#endif
+        for (long w = t.first_op; w < (light ? t.first_op + 1 : 256); w += 16) for (size_t e : {size_t(1), size_t(2), size_t(3), size_t(64)}) {
+            if (light && e != 1 && e != 64) continue;
             if (run.deadline_passed()) return;
             ks::FamilySpec s; s.kind = "density"; s.chunks = 1; s.rep = e >= 64 ? 60 : 300; s.width = 4; s.word = w;
             ex.static_family(s, e);
